@@ -12,7 +12,11 @@ Definition str_list_eqb (a b : list string) : bool := CasesLib.list_eqb String.e
 
 (* _combinations(): (settings flags, ellipsoid filter outcome, season map, weekday map, histogram of
    the days of df_meter, the texts the implementation returned) *)
-Definition check_trim (c : flags * option flags * list sname * list dname * hist * list string) : bool :=
+Definition trim_case : Type := (flags * option flags * list sname * list dname * hist * list string)%type.
+Definition route_case : Type := (string * list sname * list dname * list (Z * Z * list string))%type.
+Definition best_case : Type := (list (string * xr) * option string)%type.
+
+Definition check_trim (c : trim_case) : bool :=
   let '(f, g, sm, wm, h, expected) := c in
   str_list_eqb (combinations gen_opts f g (lookup_s sm) (lookup_d wm) h) expected.
 
@@ -27,7 +31,7 @@ Definition receivers_str (keys : list string) (sm : Z -> sname) (wm : Z -> dname
   | None => None
   end.
 
-Definition check_route (c : string * list sname * list dname * list (Z * Z * list string)) : bool :=
+Definition check_route (c : route_case) : bool :=
   let '(text, sm, wm, obs) := c in
   let keys := split_dus text in
   forallb (fun e : Z * Z * list string =>
@@ -38,7 +42,7 @@ Definition check_route (c : string * list sname * list dname * list (Z * Z * lis
              end) obs.
 
 (* the same through the structured parser; used to show that both readings agree on the cases *)
-Definition check_route_parsed (c : string * list sname * list dname * list (Z * Z * list string)) : bool :=
+Definition check_route_parsed (c : route_case) : bool :=
   let '(text, sm, wm, obs) := c in
   match parse_split text with
   | None => false
@@ -50,5 +54,5 @@ Definition check_route_parsed (c : string * list sname * list dname * list (Z * 
   end.
 
 (* _best_combination on a table of criteria *)
-Definition check_best (c : list (string * xr) * option string) : bool :=
+Definition check_best (c : best_case) : bool :=
   let '(l, expected) := c in opt_eqb String.eqb (best_x l) expected.
